@@ -74,6 +74,14 @@ def build(spec, name="p"):
         for op in spec["ops"]:
             cls = getattr(ops, op["cls"])
             pars = [_par(p, q, free) for p in op.get("pars", [])]
+            # array-valued parameters: {"re": nested list, "im": nested list (optional)} — placed before `pars`
+            arrs = []
+            for a in op.get("apars", []):
+                arr = np.array(a["re"], dtype=float)
+                if a.get("im") is not None:
+                    arr = arr + 1j * np.array(a["im"], dtype=float)
+                arrs.append(arr)
+            pars = arrs + pars
             kw = dict(op.get("kw", {}))
             if op.get("select") is not None:
                 kw["select"] = op["select"]
